@@ -41,7 +41,7 @@ MUTANTS = {
         m("handle-always-valid", "redun/handle.py", "        return scheduler.backend.is_valid_handle(self)", "        return True", "C04.3"),
     ],
     "C05": [
-        m("empty-context-unfiltered-cse", D, "            else:\n                call_nodes = call_nodes.filter(\n                    ~exists().where(\n                        and_(Tag.entity_id == CallNode.call_hash, Tag.key == CONTEXT_KEY)\n                    )\n                )\n", "", "C05.2"),
+        m("empty-context-unfiltered-cse", D, "            else:\n                call_nodes = call_nodes.filter(\n                    ~exists().where(and_(Tag.entity_id == Job.id, Tag.key == CONTEXT_KEY))\n                )\n", "", "C05.2"),
         m("pending-key-drops-context", S, "        pending_job = self._pending_jobs.get((job.eval_hash, job.context_hash))", "        pending_job = self._pending_jobs.get((job.eval_hash, None))", "C05.1"),
         m("context-hash-not-passed", S, "            check_valid,\n            job.context_hash,\n            allowed_cache_results,", "            check_valid,\n            None,\n            allowed_cache_results,", "C05.3"),
         m("context-tag-not-recorded-on-reject", S, "                context = job.get_context()\n                if context:\n                    assert job.context_hash == self.backend.record_call_node_context(\n                        job.call_hash, job.context_hash, context\n                    )\n\n                self._record_job_tags(job)\n                self.backend.record_job_end(job, status=\"FAILED\")", "                self._record_job_tags(job)\n                self.backend.record_job_end(job, status=\"FAILED\")", "C05.4"),
@@ -49,7 +49,7 @@ MUTANTS = {
     ],
     "C06": [
         m("dedup-short-circuited", S, "        if self._check_pending_job(job) is not None:", "        if job.parent_job and self._check_pending_job(job) is not None:", "C06.1"),
-        m("store-after-submit", S, "        self._pending_jobs[(job.eval_hash, job.context_hash)] = job\n\n        # Submit job.\n        if not job.task.script:\n            executor.submit(job)\n        else:\n            executor.submit_script(job)", "        # Submit job.\n        if not job.task.script:\n            executor.submit(job)\n        else:\n            executor.submit_script(job)\n        self._pending_jobs[(job.eval_hash, job.context_hash)] = job", "C06.1"),
+        m("store-after-submit", S, "            self._pending_jobs[pending_key] = job\n\n        # Submit job.\n        if not job.task.script:\n            executor.submit(job)\n        else:\n            executor.submit_script(job)", "            pass\n\n        # Submit job.\n        if not job.task.script:\n            executor.submit(job)\n        else:\n            executor.submit_script(job)\n        self._pending_jobs[pending_key] = job", "C06.1"),
         m("finalize-before-resolve", S, "        job.resolve(result)\n        self._finalize_job(job)", "        self._finalize_job(job)\n        job.resolve(result)", "C06.3"),
         m("early-return-before-registration", S, "                promise = Promise.all([args_promise, default_kwargs_promise]).then(args_then)\n", "                return Promise.all([args_promise, default_kwargs_promise]).then(args_then)\n", "C06.4"),
         m("extra-dedup-skip", S, "        pending_job = self._pending_jobs.get((job.eval_hash, job.context_hash))\n        if pending_job and job.recording_provenance()", "        if job.task.is_async():\n            return None\n        pending_job = self._pending_jobs.get((job.eval_hash, job.context_hash))\n        if pending_job and job.recording_provenance()", "C06.5"),
@@ -282,7 +282,7 @@ MUTANTS = {
         m("add-without-count", T, "        self._tasks[task.fullname] = task\n        self._task_hash_counts[task.hash] += 1", "        self._tasks[task.fullname] = task", "C37.1"),
         m("redefine-without-decrement", T, "        old_task = self._tasks.pop(task.fullname, None)\n        if old_task:\n            self._decrement_hash_count(old_task)\n", "        old_task = self._tasks.pop(task.fullname, None)\n", "C37.1"),
         m("foreign-registry-write", S, "        self.task_registry = get_task_registry()\n", "        self.task_registry = get_task_registry()\n        self.task_registry._task_hash_counts.clear()\n", "C37.2"),
-        m("rehash-before-decrement", T, "        task = self._tasks.pop(old_name)\n        self._decrement_hash_count(task)\n\n        task.namespace = new_namespace\n        task.name = new_name", "        task = self._tasks.pop(old_name)\n        task.namespace = new_namespace\n        task.name = new_name\n        task.recompute_hash()\n        self._decrement_hash_count(task)\n", "C37.3"),
+        m("rehash-before-decrement", T, "            task = self._tasks.pop(old_name)\n            self._decrement_hash_count(task)\n\n        task.namespace = new_namespace\n        task.name = new_name", "            task = self._tasks.pop(old_name)\n            task.namespace = new_namespace\n            task.name = new_name\n            task.recompute_hash()\n            self._decrement_hash_count(task)\n\n        task.namespace = new_namespace\n        task.name = new_name", "C37.3"),
         m("visible-name-after-rename", T, "            visible_name = hidden_inner_task.name\n            visible_namespace = hidden_inner_task.namespace\n", "", None),
     ],
     "C38": [
@@ -614,7 +614,7 @@ _add(
 )
 _add(
     "C18",
-    m("scheduler-call-drops-export-options", T, "                task_options=self._task_options_override,\n                export_options=self._export_options,\n                length=self.nout,", "                task_options=self._task_options_override,\n                length=self.nout,", "C18.5"),
+    m("scheduler-call-drops-export-options", T, "            SchedulerExpression(\n                self.fullname,\n                args,\n                kwargs,\n                task_options=self._task_options_override,\n                export_options=self._export_options,", "            SchedulerExpression(\n                self.fullname,\n                args,\n                kwargs,\n                task_options=self._task_options_override,", "C18.5"),
     m("partial-setstate-plain-task", T, "        self.task = task_class.__new__(task_class)", "        self.task = Task.__new__(Task)", "C18.6"),
 )
 _add(
